@@ -136,19 +136,29 @@ theorem reset_only_after_capture (ns : Nat → Nat) (hns : ∀ x, x < ns x) (d :
   rw [h.caught hd hcond.2.1 hcond.1] at hc
   simpa [State.mx, ckpt_nil] using hc
 
-/-! ### regenerated facts: the shape of the code the model mirrors
+/-! ### the attempt as the store runs it: a list of steps
 
-Extracted from the current sources by harness/extract/facts_walckpt.go on every run.
-`captureFinish` has exactly these three branches with these watch effects and error
-results; `doCapture` starts the scanner at the index `Check` returned, reads the salt
-before the pragma, and the store removes the staged segment on every error return
-(`defer walWriter.Cancel()` precedes the call, the error branch returns without `Close`). -/
+`incSteps` and `branches` are VALUES of the model: `runInc` interprets the step list (the
+deferred Cancel included) and `captureFinish` interprets the branch table. The theorems below
+say (1) interpreting them gives exactly the `doCapture` the property theorems are about,
+(2) rendered as strings they are what harness/extract reads from the current sources, and
+(3) their order is load-bearing. -/
 
+/-- running the step list with a successful `walWriter.Close()` is `doCapture` -/
+theorem capture_is_step_list (ns : Nat → Nat) (s : State) : runInc ns true incSteps s = doCapture ns s :=
+  runInc_ok ns s
+
+/-- `store/store.go` fsmSnapshot, incremental branch = the model's step list -/
+theorem code_segment_cancelled_on_error :
+    RqModel.Gen.WalCkpt.incSteps = incSteps.flatMap IncStep.code ∧
+    RqModel.Gen.WalCkpt.incErrBranchClosesSegment = some false ∧
+    RqModel.Gen.WalCkpt.incErrBranchReturnsErr = some true ∧
+    RqModel.Gen.WalCkpt.incCloseErrRequestsFull = some true := ⟨by decide, rfl, rfl, rfl⟩
+
+/-- `db/checkpoint_manager.go` outcome chain = the model's branch table -/
 theorem code_outcome_branches :
-    RqModel.Gen.WalCkpt.ckptBranches =
-      [("rc == 0", ["Disarm()"], "nil"),
-       ("pnCkpt < pnLog", [], "ErrDatabaseCheckpointBusy"),
-       ("pnCkpt == pnLog", ["Arm(preChkSalt, int64(pnCkpt))"], "nil")] := rfl
+    RqModel.Gen.WalCkpt.ckptBranches = branches.map (fun b => (b.cond.code, b.act.code, b.ret.code)) := by
+  decide
 
 theorem code_scanner_resumes_where_check_says :
     RqModel.Gen.WalCkpt.checkAssign = "startFrameIdx, walReset := cm.resetWatch.Check(preChkSalt)" ∧
@@ -160,13 +170,79 @@ theorem code_watch_check :
       ["if !w.armed", "return 0, false", "if w.salt.Equal(current)", "return w.resumeFrameIdx, false",
        "w.Disarm()", "return 0, true"] := rfl
 
-theorem code_segment_cancelled_on_error :
-    RqModel.Gen.WalCkpt.incSteps =
-      ["if-err fsutil.EnsureDirExists", "snapshot.NewStagingDir", "sd.CreateWAL", "defer walWriter.Cancel",
-       "if-err s.checkpointer.Checkpoint", "arg walWriter", "if-err walWriter.Close",
-       "snapshot.NewSnapshotPathStreamer", "snapshot.NewStateReader"] ∧
-    RqModel.Gen.WalCkpt.incErrBranchClosesSegment = some false ∧
-    RqModel.Gen.WalCkpt.incErrBranchReturnsErr = some true := ⟨rfl, rfl, rfl⟩
+/-- the ORDER of the steps matters: register the deferred Cancel AFTER the checkpoint call and a
+busy checkpoint leaves its (useless) file in the staging directory, to be packaged with the
+next snapshot -/
+theorem defer_after_checkpoint_witness :
+    let late : List IncStep := [.checkWALData, .ensureDir, .newStagingDir, .createWAL, .checkpoint, .deferCancel, .closeWAL]
+    let s := run drvSalt (fresh (dbOfList [10, 20])) [.write [⟨1, 11, 0⟩, ⟨2, 21, 2⟩], .rstart 1, .write [⟨2, 22, 2⟩]]
+    (runInc drvSalt true late s).2.err = CkErr.busy ∧ (runInc drvSalt true late s).2.seg.isSome = true ∧
+    (runInc drvSalt true incSteps s).2.err = CkErr.busy ∧ (runInc drvSalt true incSteps s).2.seg = none := by
+  decide
+
+/-! ### `walWriter.Close()` failing after the checkpoint succeeded -/
+
+/-- **close_failure_forces_full.** After ANY schedule, if the staged file cannot be made durable
+after a checkpoint that succeeded, nothing joins the chain, a full snapshot becomes due — so no
+incremental capture is accepted on the broken chain — and the invariant keeps holding. -/
+theorem close_failure_forces_full (ns : Nat → Nat) (hns : ∀ x, x < ns x) (d : Db) (ops : List Op) :
+    let s := run ns (fresh d) ops
+    s.dueFull = false → CapOk (doCapture ns s).2 →
+      (runInc ns false incSteps s).1.dueFull = true ∧ (runInc ns false incSteps s).1.segs = s.segs ∧
+      (runInc ns false incSteps s).2.seg = none ∧ (runInc ns false incSteps s).2.err = CkErr.closeFailed ∧
+      next ns (runInc ns false incSteps s).1 .capture = (runInc ns false incSteps s).1 ∧
+      Inv (runInc ns false incSteps s).1 := by
+  intro s hd hok
+  have h : Inv s := inv_run ns hns (inv_fresh d) ops
+  have hi := inv_captureCloseFail ns h hd
+  rw [runInc_closeFail]
+  obtain ⟨_, hsome⟩ := hok
+  cases hs : (doCapture ns s).2.seg with
+  | none => rw [hs] at hsome; cases hsome
+  | some sg =>
+    have e : doCaptureCloseFail ns s =
+        ({ (doCapture ns s).1 with segs := s.segs, dueFull := true },
+         { (doCapture ns s).2 with err := CkErr.closeFailed, seg := none }) := by
+      unfold doCaptureCloseFail; simp only [hs]
+    rw [e] at hi ⊢
+    exact ⟨rfl, rfl, rfl, rfl, by simp [next], hi⟩
+
+/-- … and the full snapshot that must follow repairs the chain: after ANY schedule (close
+failures included), a full snapshot that succeeds leaves chain = live database. -/
+theorem full_snapshot_restores_chain (ns : Nat → Nat) (hns : ∀ x, x < ns x) (d : Db) (ops : List Op) :
+    let s := run ns (fresh d) ops
+    s.dueFull = true → (doFull ns s).2.2 = CkErr.none →
+      (doFull ns s).1.dueFull = false ∧ (doFull ns s).1.rebuilt = (doFull ns s).1.logical := by
+  intro s hdue hok
+  have h : Inv s := inv_run ns hns (inv_fresh d) ops
+  have hi := inv_full ns h hdue
+  have hdf : (doFull ns s).1.dueFull = false := by
+    revert hok; unfold doFull fullFinish
+    split
+    · intro _; rfl
+    · split
+      · intro hh; cases hh
+      · intro _; rfl
+  have hfr : (doFull ns s).1.frames = [] := by
+    revert hok; unfold doFull
+    by_cases hwe : s.walEmpty = true
+    · rw [if_pos hwe]; intro _; exact (h.empty hwe).1
+    · rw [if_neg hwe]
+      rcases sqliteCheckpoint_cases ns s h.bf_le with ⟨b', hlt, hr⟩ | ⟨_, hr⟩ | hr <;> rw [hr] <;>
+          simp [fullFinish, truncState]
+  refine ⟨hdf, ?_⟩
+  have hc := hi.chain hdf
+  rw [hfr] at hc
+  simpa [ckpt_nil] using hc
+
+/-- what the unrepaired code did: the segment is dropped but NO full snapshot is requested; the
+next incremental capture is accepted and the chain no longer reproduces the database -/
+theorem close_failure_without_full_witness :
+    let s0 := run drvSalt (fresh (dbOfList [10, 20])) [.write [⟨1, 11, 0⟩, ⟨2, 21, 2⟩]]
+    let lost : State := { (doCaptureCloseFail drvSalt s0).1 with dueFull := false }   -- old behaviour
+    let s2 := run drvSalt lost [.write [⟨1, 12, 2⟩], .capture]
+    s2.segs.length = 1 ∧ s2.rebuilt.page 2 = 20 ∧ s2.logical.page 2 = 21 := by
+  decide
 
 /-! ### non-vacuity: concrete schedules exercising every outcome -/
 
